@@ -91,7 +91,7 @@ pub fn byte_array_decimal_file(rng: &mut Rng, tr: &mut Shards, cnt: &mut Counter
         }
     };
     cnt.files += 1;
-    let r = guarded(|| describe_column(&bytes, meta.metadata(), meta.schema(), meta.schema().field(0), 0, &cfg, stats, tr, cnt));
+    let r = guarded(|| describe_column(&bytes, meta.metadata(), meta.schema(), meta.schema().field(0), 0, &cfg, stats, 64, tr, cnt));
     let failure = match r {
         Ok(Ok(())) => None,
         Ok(Err(e)) => Some(e),
